@@ -14,6 +14,8 @@ Cases ==
   \cup {[op |-> "bits", n |-> n, x |-> x, y |-> y, k |-> k] : n \in {64}, x \in Patterns(64), y \in {[i \in 1..64 |-> IF i = p THEN 1 ELSE 0] : p \in {1, 33, 64}} \cup {[i \in 1..64 |-> 0]}, k \in {0, 7, 63, 64}}
   \cup {[op |-> "bits", n |-> n, x |-> x, y |-> y, k |-> k] : n \in {16}, x \in Patterns(16), y \in {[i \in 1..16 |-> IF i = p THEN 1 ELSE 0] : p \in {1, 9, 16}} \cup {[i \in 1..16 |-> 0]}, k \in {0, 3, 16}}
   \cup {[op |-> "space", data |-> [i \in 1..64 |-> IF (i + s) % m = 0 THEN w ELSE 97 + (i % 20)]] : s \in 0..3, m \in {1, 2, 3, 7, 64}, w \in {9, 10, 13, 32, 11, 12, 0, 160}}
+  \cup {[op |-> "space", data |-> Ramp(k, 64)] : k \in 0..255}
+  \cup {[op |-> "str2int", bytes |-> [i \in 1..20 |-> IF i <= r THEN 48 + (i % 10) ELSE t], need |-> 16] : r \in {1, 8, 15}, t \in 0..255}
   \cup {[op |-> "str2int", bytes |-> [i \in 1..20 |-> IF i <= r THEN 48 + ((i * d) % 10) ELSE t], need |-> nd] : r \in 1..17, d \in {1, 3, 9}, t \in {46, 101, 32, 47, 58}, nd \in {1, 8, 15, 16}}
 VARIABLE cur
 Init == cur \in Cases
